@@ -112,9 +112,10 @@ RealRes(n, d) ==
   LET p == NormR(n, d)
   IN IF p[1] > Bound \/ p[1] < -Bound \/ p[2] > 1024 THEN XUnk ELSE RealV(p[1], p[2])
 MaxI(a, b) == IF a > b THEN a ELSE b
-RAdd(x, y) == LET d == MaxI(x.d, y.d) IN RealRes(x.n * (d \div x.d) + y.n * (d \div y.d), d)
-RSub(x, y) == LET d == MaxI(x.d, y.d) IN RealRes(x.n * (d \div x.d) - y.n * (d \div y.d), d)
-RMul(x, y) == IF x.d * y.d > 1024 THEN XUnk
+LargeR(x) == x.n > Bound \/ x.n < -Bound            \* a REAL too large for the model's arithmetic (e.g. seconds since 1970)
+RAdd(x, y) == IF LargeR(x) \/ LargeR(y) THEN XUnk ELSE LET d == MaxI(x.d, y.d) IN RealRes(x.n * (d \div x.d) + y.n * (d \div y.d), d)
+RSub(x, y) == IF LargeR(x) \/ LargeR(y) THEN XUnk ELSE LET d == MaxI(x.d, y.d) IN RealRes(x.n * (d \div x.d) - y.n * (d \div y.d), d)
+RMul(x, y) == IF LargeR(x) \/ LargeR(y) \/ x.d * y.d > 1024 \/ x.n > 30000 \/ x.n < -30000 \/ y.n > 30000 \/ y.n < -30000 THEN XUnk
               ELSE IF x.n * y.n = 0 /\ (x.n < 0 \/ y.n < 0) THEN NZero        \* IEEE: (+0) * (negative) = -0.0
               ELSE RealRes(x.n * y.n, x.d * y.d)
 
@@ -269,6 +270,10 @@ SortUnique(xs, acc) == IF xs = <<>> THEN acc ELSE SortUnique(Tail(xs), InsertSor
 CmpResult(f, c) == CASE f = "="  -> c = 0  [] f = "!=" -> c # 0 [] f = "<" -> c < 0
                      [] f = "<=" -> c <= 0 [] f = ">"  -> c > 0 [] f = ">=" -> c >= 0
 
+\* comparing n1/d1 with n2/d2 cross-multiplies: beyond TLC's integers when one side is large and the other is not whole
+BigNum(v) == (v.t = "real" /\ v.c = "fin" /\ (v.n > Bound \/ v.n < -Bound)) \/ (v.t = "int" /\ v.b = 0 /\ (v.i > Bound \/ v.i < -Bound))
+Fractional(v) == v.t = "real" /\ v.c = "fin" /\ v.d > 1
+BigCross(a, b) == IsNum(a) /\ IsNum(b) /\ ((BigNum(a) /\ Fractional(b)) \/ (BigNum(b) /\ Fractional(a)))
 Comparable(a, b) == \/ a.t = b.t /\ a.t # "arr"
                     \/ IsNum(a) /\ IsNum(b)
                     \/ a.t = "arr" /\ b.t = "arr" /\ a.et = b.et
@@ -283,6 +288,7 @@ Compare(f, a, b) ==
           ELSE IF a.t = "text" THEN Compare(f, p, b) ELSE Compare(f, a, p)
   ELSE IF IsNull(a) \/ IsNull(b) THEN Val(BoolV(FALSE))
   ELSE IF ~Comparable(a, b) THEN Unk
+  ELSE IF BigCross(a, b) THEN Unk
   ELSE IF "NumVariantOrder" \in Dev /\ a.t # b.t
        THEN \* as built: derived PartialEq / PartialOrd compare the variant first
             Val(BoolV(CmpResult(f, CmpB(a, b))))
@@ -464,6 +470,7 @@ Call1(f, a) ==
          IF IsNull(a) THEN Val(Null)
          ELSE IF a.t # "real" THEN Err
          ELSE IF a.c = "fin" THEN (IF a.n < 0 THEN Val(NaN)
+                                   ELSE IF LargeR(a) THEN Unk
                                    ELSE IF PerfectSquare(a.n) /\ PerfectSquare(a.d) THEN Val(RealV(ISqrt(a.n, 0), ISqrt(a.d, 0))) ELSE Unk)
          ELSE IF a.c \in {"nzero", "pinf", "nan", "nnan"} THEN Val(a)
          ELSE IF a.c \in {"ninf", "n63"} THEN Val(NaN)
@@ -480,6 +487,7 @@ Call2(f, a, b) ==
          IF IsNull(a) \/ IsNull(b) THEN Val(Null)
          ELSE IF a.t # b.t \/ a.t \notin {"int", "real", "ts", "iv"} THEN Err
          ELSE IF a.t = "real" /\ (a.c \in {"nan", "nnan", "nzero"} \/ b.c \in {"nan", "nnan", "nzero"}) THEN Unk
+         ELSE IF BigCross(a, b) THEN Unk
          ELSE LET c == Cmp(a, b) IN Val(IF (f = "least") = (c <= 0) THEN a ELSE b)
     [] f = "pow" ->
          IF IsNull(a) \/ IsNull(b) THEN Val(Null)
